@@ -170,12 +170,19 @@ Section Select.
 
   (* an engine of the right mode that does not qualify is added to the error report: the report evaluates
      EngineClass.supports(ProblemKind({f}, version=problem_kind.version)) for every feature f of the request, which raises
-     KeyError exactly when the comparison needs an upgrade function that does not exist *)
-  Definition report_raises (e : engine) (r : request) : bool :=
+     KeyError exactly when the comparison needs an upgrade function that does not exist.  [report_raises_spec] is the literal
+     transcription; [report_raises] is the equivalent closed form used by the loop (Factory_proofs.report_raises_equiv):
+     whether an upgrade function is missing depends on the two versions only. *)
+  Definition report_raises_spec (e : engine) (r : request) : bool :=
     is_mode e (r_mode r)
     && existsb (fun f => match supports e {| k_feats := mask_of [f]; k_ver := Some (version T (r_kind r)) |} with
                          | Ok _ => false | _ => true end)
                (elements (k_feats (r_kind r))).
+
+  Definition report_raises (e : engine) (r : request) : bool :=
+    is_mode e (r_mode r)
+    && negb (k_feats (r_kind r) =? 0)%N
+    && match equalize T 0%N 0%N (version T (r_kind r)) (version T (e_supported e)) with None => true | Some _ => false end.
 
   (* the loop `for name in self._preference_list` of _get_engine_class *)
   Fixpoint first_satisfying (reg : registry) (prefs : list string) (r : request) : selection :=
